@@ -221,7 +221,7 @@ func init() {
 			}
 			s[1] = in.ts.Const(32, n-1)
 			in.lockEvent("runlock", &s[0].(Struct)[0])
-			in.schedPoint()
+			in.schedPointSync()
 			return nil
 		},
 		"(*sync.WaitGroup).Add": func(in *Interp, _ *frame, pos token.Pos, args []Value) Value {
@@ -510,28 +510,28 @@ func addAtomics() {
 	for _, s := range []spec{{"Int32", 32}, {"Int64", 64}, {"Uint32", 32}, {"Uint64", 64}, {"Uintptr", 64}} {
 		s := s
 		stdIntrinsics["sync/atomic.Load"+s.name] = func(in *Interp, _ *frame, pos token.Pos, args []Value) Value {
-			in.schedPoint()
+			in.schedPointSync()
 			return in.load(args[0], pos)
 		}
 		stdIntrinsics["sync/atomic.Store"+s.name] = func(in *Interp, _ *frame, pos token.Pos, args []Value) Value {
-			in.schedPoint()
+			in.schedPointSync()
 			in.store(args[0], args[1], pos)
 			return nil
 		}
 		stdIntrinsics["sync/atomic.Add"+s.name] = func(in *Interp, _ *frame, pos token.Pos, args []Value) Value {
-			in.schedPoint()
+			in.schedPointSync()
 			v := in.ts.Bin(OAdd, in.load(args[0], pos).(*Term), args[1].(*Term))
 			in.store(args[0], v, pos)
 			return v
 		}
 		stdIntrinsics["sync/atomic.Swap"+s.name] = func(in *Interp, _ *frame, pos token.Pos, args []Value) Value {
-			in.schedPoint()
+			in.schedPointSync()
 			old := in.load(args[0], pos)
 			in.store(args[0], args[1], pos)
 			return old
 		}
 		stdIntrinsics["sync/atomic.CompareAndSwap"+s.name] = func(in *Interp, _ *frame, pos token.Pos, args []Value) Value {
-			in.schedPoint()
+			in.schedPointSync()
 			old := in.load(args[0], pos).(*Term)
 			if in.decideBool(in.ts.Cmp(OEq, old, args[1].(*Term))) {
 				in.store(args[0], args[2], pos)
@@ -541,22 +541,22 @@ func addAtomics() {
 		}
 	}
 	stdIntrinsics["sync/atomic.LoadPointer"] = func(in *Interp, _ *frame, pos token.Pos, args []Value) Value {
-		in.schedPoint()
+		in.schedPointSync()
 		return in.load(args[0], pos)
 	}
 	stdIntrinsics["sync/atomic.StorePointer"] = func(in *Interp, _ *frame, pos token.Pos, args []Value) Value {
-		in.schedPoint()
+		in.schedPointSync()
 		in.store(args[0], args[1], pos)
 		return nil
 	}
 	stdIntrinsics["sync/atomic.SwapPointer"] = func(in *Interp, _ *frame, pos token.Pos, args []Value) Value {
-		in.schedPoint()
+		in.schedPointSync()
 		old := in.load(args[0], pos)
 		in.store(args[0], args[1], pos)
 		return old
 	}
 	stdIntrinsics["sync/atomic.CompareAndSwapPointer"] = func(in *Interp, _ *frame, pos token.Pos, args []Value) Value {
-		in.schedPoint()
+		in.schedPointSync()
 		old := in.load(args[0], pos)
 		if in.decideBool(in.equals(old, args[1])) {
 			in.store(args[0], args[2], pos)
